@@ -150,8 +150,10 @@ class Prop:
         ops, meta = [], []
         for s in sentences:
             for tb in blocks:
-                ops.append('parse ' + (b'\\' + tb + b'\\' + s).hex())
-                meta.append((s, tb))
+                for lead, trail in ((b'', b''), (b'\n', b''), (b' ', b'\r\n'), (b'\r\n', b' '), (b'\t', b'\n')):
+                    # surrounding whitespace is stripped before the tag block is looked for
+                    ops.append('parse ' + (lead + b'\\' + tb + b'\\' + s + trail).hex())
+                    meta.append((lead + s + trail, tb))
         outs = ctx.corr(ops, impl.step, 'parse')
         for (s, tb), o in zip(meta, outs):
             bare = impl.step('parse ' + s.hex())
